@@ -172,7 +172,9 @@ impl Extend<Command> for CommandList {
 /// assert_eq!(escape_argument("foo'bar\""), "foo\\'bar\\\"");
 /// ```
 pub fn escape_argument(argument: &str) -> Cow<'_, str> {
-    let needs_quotes = argument.contains(&[' ', '\t'][..]);
+    // MPD splits unquoted arguments at any character up to and including the space (tabs, carriage
+    // returns and other control characters), and an empty argument only exists in quoted form
+    let needs_quotes = argument.is_empty() || argument.contains(|c: char| c <= ' ');
     let escape_count = argument.chars().filter(|c| should_escape(*c)).count();
 
     if escape_count == 0 && !needs_quotes {
